@@ -170,6 +170,8 @@ std::string Model::logger_name_at(int slot, uint64_t seq) const
 
 // ---- registry ------------------------------------------------------------------------------------
 void register_c03(std::vector<Profile>&);
+void register_c04(std::vector<Profile>&);
+void register_c11(std::vector<Profile>&);
 void register_c05(std::vector<Profile>&);
 void register_c06(std::vector<Profile>&);
 void register_c07(std::vector<Profile>&);
@@ -187,7 +189,9 @@ static std::vector<Profile>& registry()
   {
     std::vector<Profile> v;
     register_c03(v);
+    register_c04(v);
     register_c05(v);
+    register_c11(v);
     register_c06(v);
     register_c07(v);
     register_c08(v);
